@@ -265,6 +265,26 @@ def lower_block(d, bi, crate):
         return []
     if t["call"].get("def") == "core::ops::try_trait::Try::branch" and len(t["args"]) == 1:
         return _lower_try_branch(d, bi, crate)
+    if t["call"].get("def") == "core::ops::try_trait::FromResidual::from_residual" and len(t["args"]) == 1 and isinstance(t["dest"], int):
+        # the error side of `?`: from_residual(Err(e)) is Err(From::from(e)), from_residual(None) is None — a value of known variant
+        st = t["call"].get("self_ty") or {}
+        em = _Emit(d, t, crate)
+        if st.get("adt") == RES:
+            targs = st.get("args", [])
+            res_ = em.local((t.get("atys") or [None])[0])
+            e_ = em.local()
+            e2 = em.local(targs[1] if len(targs) > 1 else None)
+            fin = em.block([em.stmt(t["dest"], {"agg": "adt", "adt": RES, "variant": "Err", "vi": 1, "args": targs, "ops": [{"mv": e2}]})], {"goto": t["target"], "ln": t.get("ln")})
+            blk["s"].append(em.stmt(res_, {"use": t["args"][0]}))
+            blk["s"].append(em.stmt(e_, {"use": {"mv": {"l": res_, "p": [{"dc": 1, "n": "Err"}, {"f": 0, "n": "0"}]}}}))
+            blk["t"] = {"call": {"def": "core::convert::From::from", "id": "core::convert::From::from", "name": "from", "local": False, "trait": "core::convert::From", "substs": [targs[1] if len(targs) > 1 else {}, {}]},
+                        "args": [{"mv": e_}], "atys": [], "dest": e2, "target": fin, "ln": t.get("ln"), "fln": t.get("ln"), "x": em.tag, "lowered_call": t["call"]}
+            return em.new_blocks
+        if st.get("adt") == OPT:
+            blk["s"].append(em.stmt(t["dest"], {"agg": "adt", "adt": OPT, "variant": "None", "vi": 0, "args": st.get("args", []), "ops": []}))
+            blk["t"] = {"goto": t["target"], "ln": t.get("ln"), "x": em.tag, "lowered_call": t["call"]}
+            return [bi]
+        return []
     co = combinator_of(t)
     if co is None:
         return []
